@@ -29,7 +29,7 @@ func VProbeExported(c *Config, name string, standalone bool) (string, string, []
 //go:noinline
 func vProbeInner(c *Config, name string, standalone bool) (string, string, []VFrame) {
 	frames := []VFrame{}
-	pcs := make([]uintptr, 64)
+	pcs := make([]uintptr, 512)
 	// skip runtime.Callers, vProbeInner, VProbeExported
 	n := runtime.Callers(3, pcs)
 	for _, pc := range pcs[:n] {
@@ -49,5 +49,17 @@ func vProbeInner(c *Config, name string, standalone bool) (string, string, []VFr
 //
 //go:noinline
 func VLeafNonTest(c *Config, name string, standalone bool) (string, string, []VFrame) {
+	return VProbeExported(c, name, standalone)
+}
+
+// a leaf call made at the bottom of a deep recursion inside a non-test source file (a tree walker in a helper
+// package): `depth` consecutive non-test frames lie between the Match* call and the nearest *_test.go frame
+//
+//go:noinline
+func VLeafDeepNonTest(depth int, c *Config, name string, standalone bool) (string, string, []VFrame) {
+	if depth > 0 {
+		p, rel, fr := VLeafDeepNonTest(depth-1, c, name, standalone)
+		return p, rel, fr
+	}
 	return VProbeExported(c, name, standalone)
 }
